@@ -6,6 +6,8 @@ import (
 	"context"
 	"fmt"
 	"net"
+	"sort"
+	"strings"
 	"sync/atomic"
 	"testing"
 	"time"
@@ -129,6 +131,7 @@ func TestVerifC16BridgeLateJoin(t *testing.T) {
 					br.SetSourceConnection(newTunnelConn("late-source"))
 				}
 			}
+			hung := false
 			// ---- phase 1: first close -----------------------------------------------------
 			fns := make([]func(), 0, k1+2)
 			for i := 0; i < k1; i++ {
@@ -144,8 +147,29 @@ func TestVerifC16BridgeLateJoin(t *testing.T) {
 			if ok {
 				select {
 				case <-startReturned:
-				case <-time.After(20 * time.Second):
+				case <-time.After(2 * time.Second):
+					// Start() has not returned although every Close call has. Decide
+					// logically (DESIGN 2.5b): the harness holds all far ends and sends
+					// nothing, so if three dumps 100 ms apart show the same bridge goroutines
+					// parked in the same frames, nothing can ever change -> hang.
+					if fp, stable := c16ParkedFingerprint(snap, scope); stable {
+						open := []string{}
+						for _, h := range handed {
+							if h.closes() == 0 {
+								open = append(open, h.what)
+							}
+						}
+						run.Violation("C16:bridge|late-join|start-never-returns-after-close|join="+map[bool]string{true: "racing", false: "after"}[racing],
+							map[string]any{"case": desc, "parked": fp, "handed_conns_never_closed": open})
+						run.Count("leak_violations", 1)
+					} else {
+						run.Count("watchdog", 1)
+					}
+					for _, h := range handed {
+						h.far.Close()
+					}
 					ok = false
+					hung = true
 				}
 			}
 			// ---- phase 2: late join after the first Close returned ---------------------------
@@ -166,7 +190,9 @@ func TestVerifC16BridgeLateJoin(t *testing.T) {
 			}
 			cancel()
 			if !ok {
-				run.Count("watchdog", 1)
+				if !hung {
+					run.Count("watchdog", 1)
+				}
 				continue
 			}
 			jt := "after"
@@ -202,4 +228,42 @@ func TestVerifC16BridgeLateJoin(t *testing.T) {
 		}
 		run.Count("leak_checks", 1)
 	}
+}
+
+// c16ParkedFingerprint takes three goroutine dumps 100 ms apart and reports whether the
+// goroutines created since snap with a frame in scope are the same ones, in the same
+// state and innermost frame, every time.
+func c16ParkedFingerprint(snap vk.LeakSnapshot, scope []string) ([]string, bool) {
+	var prev []string
+	for round := 0; round < 3; round++ {
+		if round > 0 {
+			time.Sleep(100 * time.Millisecond)
+		}
+		var cur []string
+		for _, g := range vk.Goroutines() {
+			if _, old := snap[g.ID]; old {
+				continue
+			}
+			in := false
+			for _, sc := range scope {
+				if strings.Contains(g.Stack, sc) {
+					in = true
+				}
+			}
+			// the harness's own waiting goroutines are in the package too: keep product frames only
+			if !in || strings.Contains(g.Top, "c16") || strings.Contains(g.Top, "VerifC16") {
+				continue
+			}
+			if strings.HasPrefix(g.State, "running") || strings.HasPrefix(g.State, "runnable") {
+				return nil, false
+			}
+			cur = append(cur, g.ID+" "+strings.SplitN(g.State, ",", 2)[0]+" "+g.Top)
+		}
+		sort.Strings(cur)
+		if round > 0 && strings.Join(cur, ";") != strings.Join(prev, ";") {
+			return nil, false
+		}
+		prev = cur
+	}
+	return prev, len(prev) > 0
 }
